@@ -1,15 +1,15 @@
 package checks
 
 import (
+	"context"
 	"crypto/sha1"
 	"encoding/hex"
 	"fmt"
 	"regexp"
 	"sort"
 	"strings"
+	"sync"
 	"time"
-
-	"context"
 
 	"github.com/sdcio/data-server/pkg/cache"
 	"github.com/sdcio/data-server/pkg/config"
@@ -52,13 +52,16 @@ func scheduledDryRun(rc *sim.RunCtx, w *world.World, tx *TxSpec) (*TxResult, str
 	sched.Fair = func() bool { return true } // time plays no role inside validation: never advance the clock while somebody can run
 	inValidate := false
 	loads, defaults, children := 0, 0, 0
+	var hookMu sync.Mutex // freshly spawned validation goroutines reach the hook in parallel, before they park
 	tree.VerifYield = func(p string) {
+		hookMu.Lock()
 		switch p {
 		case "tree.validate.begin":
 			inValidate = true
 			sched.Enable()
 		case "tree.validate.end":
 			inValidate = false
+			hookMu.Unlock()
 			sched.Drain()
 			return
 		}
@@ -72,6 +75,7 @@ func scheduledDryRun(rc *sim.RunCtx, w *world.World, tx *TxSpec) (*TxResult, str
 				children++
 			}
 		}
+		hookMu.Unlock()
 		sched.Yield(p)
 	}
 	defer func() { tree.VerifYield = nil }()
@@ -164,13 +168,16 @@ func partialTreeValidate(rc *sim.RunCtx, w *world.World, tx *TxSpec, sequential 
 	sched.Fair = func() bool { return true }
 	inValidate := false
 	loads, defaults := 0, 0
+	var hookMu sync.Mutex // freshly spawned validation goroutines reach the hook in parallel, before they park
 	tree.VerifYield = func(p string) {
+		hookMu.Lock()
 		switch p {
 		case "tree.validate.begin":
 			inValidate = true
 			sched.Enable()
 		case "tree.validate.end":
 			inValidate = false
+			hookMu.Unlock()
 			sched.Drain()
 			return
 		}
@@ -181,6 +188,7 @@ func partialTreeValidate(rc *sim.RunCtx, w *world.World, tx *TxSpec, sequential 
 				defaults++
 			}
 		}
+		hookMu.Unlock()
 		sched.Yield(p)
 	}
 	defer func() { tree.VerifYield = nil }()
@@ -367,14 +375,16 @@ func runC17Free(rc *sim.RunCtx) {
 		return
 	}
 	defer ws.Close()
-	cfg := SwarmCfg(t, "constraints", map[string]bool{"create": true, "change": true, "grow": true, "shrink": true, "delete": true, "reprio": true, "resubmit": true})
+	profile := []string{"constraints", "lazy"}[t.Choose(2)]
+	cfg := SwarmCfg(t, profile, map[string]bool{"create": true, "change": true, "grow": true, "shrink": true, "delete": true, "reprio": true, "resubmit": true})
 	cfg.FormW = []int{4, 1, 0, 0}
 	cfg.InvalidPct = []int{5, 15, 30}[t.Choose(3)]
 	g := NewGen(t, si, cfg)
 	m := NewModel(si)
 	// running values that validators have to load lazily (leafref targets, must operands)
-	seed := []*MLeaf{NewMLeaf(si, world.P(world.E("k1", "name", "c"), world.E("val")), "v1"), NewMLeaf(si, world.P(world.E("sys"), world.E("hostname")), "h9")}
-	if t.Bool(1, 2) {
+	seed := []*MLeaf{NewMLeaf(si, world.P(world.E("k1", "name", "c"), world.E("val")), "v1"), NewMLeaf(si, world.P(world.E("sys"), world.E("hostname")), "h9"),
+		NewMLeaf(si, world.P(world.E("cc"), world.E("kn")), "a"), NewMLeaf(si, world.P(world.E("cc"), world.E("lim")), "50"), NewMLeaf(si, world.P(world.E("k1", "name", "a"), world.E("val")), "v1")}
+	if t.Bool(3, 4) {
 		var ls []*world.Leaf
 		for _, l := range Closure(si, seed) {
 			ls = append(ls, &world.Leaf{Path: l.Path, Abs: l.Abs, TV: MkTV(l.Node, l.Lex, "typed")})
@@ -398,6 +408,22 @@ func runC17Free(rc *sim.RunCtx) {
 		}
 		rc.Step()
 		rc.Scenario("%d: %s", step, tx.Render())
+		// trees without the running store (validators load on demand), goroutines running free: meant for the race detector build
+		if pref, _, _, perr := partialTreeValidate(rc, wc, tx, true, false); perr == nil {
+			for r := 0; r < 2; r++ {
+				pgot, _, _, perr := partialTreeValidate(rc, wc, tx, false, false)
+				if perr != nil {
+					break
+				}
+				rc.Count("free-partial-tree-validations")
+				if strings.Join(pgot, "\n") != strings.Join(pref, "\n") {
+					a, b := diffSets(pref, pgot)
+					rc.Report(sim.Item{Prop: "C17", Clause: "C17.verdict-differs", Step: step, Fields: map[string]string{"repetition": fmt.Sprint(r), "edits": renderEdits(tx), "mode": "partial-tree-free"},
+						Detail: fmt.Sprintf("tree without running loaded: sequential validation %v; concurrent validation (free running, repetition %d): only sequential: %v; only concurrent: %v", pref, r, a, b)})
+					return
+				}
+			}
+		}
 		// dry runs: sequential reference, then repeated concurrent runs
 		dry := *tx
 		dry.DryRun = true
